@@ -214,6 +214,23 @@ void h_release(void)
 }
 #endif
 
+#ifdef H_RELEASE_LOST
+/* the caller's whole record was taken by a preemptor and the PREEMPTED notice was overtaken by another signal in the
+ * same instant (as replay/c05_preempt_interrupt_demo.c shows for the binary resource): it releases what it believes it holds */
+void h_release_lost(void)
+{
+    setup();
+    ASSUME(cmv_base == 0u);
+    const uint64_t n = nondet_u64(); ASSUME(n > 0u && n <= RP->capacity);
+    const uint64_t use0 = RP->in_use, a0 = held(A), b0 = held(B);
+    cmb_resourcepool_release(RP, n);
+    OBT("C07-O4", held(P) == 0u && RP->in_use == use0 && held(A) == a0 && held(B) == b0, "a release by a process whose units were all taken by a preemptor changes nothing: the units belong to their new holders");
+    OBT("C07-O1", ipool(), "on return I-POOL holds");
+    OBT("C14-O1", CMV_IREC, "the recorded amount still equals the amount in use");
+    CANARY("pool release by a former holder: end reachable");
+}
+#endif
+
 #ifdef H_DROP
 void h_drop(void)
 {
